@@ -17,6 +17,7 @@ import Sbepp.Lemmas.C07Literals
 import Sbepp.Lemmas.C07Accept
 import Sbepp.Lemmas.C07Canon
 import Sbepp.Lemmas.C07Scope
+import Sbepp.Lemmas.C07Params
 import Sbepp.Lemmas.C07Witness
 import Sbepp.Lemmas.C07WitnessScope
 
@@ -379,39 +380,51 @@ example :
 
 /-! ## 3. `size_bytes` parameter names -/
 
-/-- the parameters of every generated trait-level `size_bytes` are pairwise distinct — FALSE on the current tree -/
-def size_bytes_params_distinct_full : Prop :=
-  ∀ s : SchemaDef, Accepted s → ∀ ep ∈ paramLists s, ep.2.Nodup
+/-- **param_naming_shape**: on this run `traits_generator::make_unique_param_name` is the loop of fix 0030
+    (`while` the name is among the existing ones, append `_<depth>`), and the functions that build the parameter
+    and argument lists of the trait-level `size_bytes` have the text the model transliterates.  With the single
+    `if` of the old generator the flag is `false`, this obligation fails, and the model (which keeps the old
+    behaviour behind the flag) predicts the three-way clash again -/
+theorem param_naming_shape : Templates.uniqueParamLoops = true ∧ Templates.sizeBytesShapeOk = true := by decide
 
-theorem size_bytes_params_distinct_full_false : ¬ size_bytes_params_distinct_full := by
-  intro h
-  have ha : Accepted wPaths := wPaths_fact.1
-  -- `a/b_c_d`, `a_b/c_d`, `a_b_c/d`: the second and the third become `a_b_c_d_num_in_group_1`
-  have hm := wPaths_fact.2
-  have := h wPaths ha _ hm
-  revert this
-  decide
+/-- **unique_param_terminates**: the loop of `make_unique_param_name` ends after at most `existing.size() + 1`
+    tests — every iteration lengthens the name, so each existing name can be met at most once — with a name that
+    is not among the existing ones -/
+theorem unique_param_terminates (existing : List String) (depth : Nat) (name : String) :
+    ∃ r, uniqueLoop existing depth (existing.length + 1) name = some r ∧ r ∉ existing := by
+  obtain ⟨r, h1, h2, _⟩ := uniqueLoop_terminates existing depth name
+  exact ⟨r, h1, h2⟩
 
-/-- **size_bytes_params_distinct (partial)**: when the names the generator *asks for* (path of group names
-    joined by `_`, plus `total_data_size`) are pairwise distinct, `make_unique_param_name` changes nothing and
-    the parameter lists of `message_traits<M>::size_bytes` and of `group_traits<G>::size_bytes` are exactly
-    those names -/
-theorem size_bytes_params_distinct_partial :
-    (∀ m : MessageDef, (messageDesiredParams m).Nodup →
-      messageSizeParams m = messageDesiredParams m ∧ (messageSizeParams m).Nodup) ∧
-    (∀ g : GroupDef, (groupDesiredParams g).Nodup →
-      groupSizeParams g = groupDesiredParams g ∧ (groupSizeParams g).Nodup) :=
-  ⟨fun m h => ⟨messageSizeParams_desired m h, by rw [messageSizeParams_desired m h]; exact h⟩,
-   fun g h => ⟨groupSizeParams_desired g h, by rw [groupSizeParams_desired g h]; exact h⟩⟩
+/-- **size_bytes_params_distinct** (full strength, EVERY schema): the parameter names of every generated
+    `message_traits<M>::size_bytes` and `group_traits<G>::size_bytes` are pairwise distinct — each group
+    parameter is new when it is appended, and `total_data_size` is none of them (they end in `num_in_group` or
+    a digit) — so the model predicts no duplicate parameter -/
+theorem size_bytes_params_distinct (s : SchemaDef) :
+    (∀ ep ∈ paramLists s, ep.2.Nodup) ∧ paramProblems s = [] :=
+  ⟨paramLists_nodup param_naming_shape.1 s, paramProblems_nil param_naming_shape.1 s⟩
 
-/-- non-vacuity: nested groups with data, and a two-way clash (`a/b` against `a_b`) that the generator
-    resolves -/
-example : (messageDesiredParams (wGood.messages.head!)).Nodup ∧
-    messageSizeParams (wGood.messages.head!) = ["g_num_in_group", "g_h_num_in_group"] := by
-  refine ⟨by decide +kernel, by decide +kernel⟩
+/-- **size_bytes_call_args**: at every call `group_traits<G>::size_bytes(args)` inside
+    `message_traits<M>::size_bytes` the arguments are exactly the parameter names that were appended for `G`, in
+    order (`make_group_size_bytes_args` takes the last `params_added` names), followed by `0` when there is data
+    below `G`; their number is the number of parameters `group_traits<G>::size_bytes` declares -/
+theorem size_bytes_call_args (m : MessageDef) : ∀ c ∈ messageCalls [] m.groups,
+    ∃ before added, msgGroupParams [] before c.1 = before ++ added ∧
+      c.2 = added ++ (if groupHasData c.1 then ["0"] else []) ∧
+      c.2.length = (groupSizeParams c.1).length :=
+  messageCalls_spec m.groups []
+
+/-- the former three-way clash, and the two-way clash (`a/b` against `a_b`) -/
+example : Accepted wPaths ∧
+    ("messages.M", ["a_num_in_group", "a_b_c_d_num_in_group", "a_b_num_in_group", "a_b_c_d_num_in_group_1",
+      "a_b_c_num_in_group", "a_b_c_d_num_in_group_1_1"]) ∈ paramLists wPaths ∧ paramProblems wPaths = [] := wPaths_fact
+
+example : messageSizeParams (wGood.messages.head!) = ["g_num_in_group", "g_h_num_in_group"] := by decide +kernel
 
 example : messageSizeParams (msg "M" 1 [] [grp "a" 1 [] [grp "b" 2], grp "a_b" 3]) =
     ["a_num_in_group", "a_b_num_in_group", "a_b_num_in_group_0"] := by decide +kernel
+
+example : (messageCalls [] [grp "a" 1 [] [grp "b" 2], grp "a_b" 3]).map (·.2) =
+    [["a_num_in_group", "a_b_num_in_group"], ["a_b_num_in_group_0"]] := by decide +kernel
 
 /-! ## 4. Includes -/
 
